@@ -1,0 +1,17 @@
+//go:build verif
+
+package kinesis
+
+import "time"
+
+// Accessors for the verification harness (/verif). Compiled only with -tags verif.
+
+// VerifSetDiscoveryTicker replaces the shard discovery ticker by one fed from c, so
+// that the harness decides when a discovery round runs. Call it only while the
+// assignment goroutine is parked at verifhook point "kinesis.splitter.loop".
+func (s *SourceSplitter) VerifSetDiscoveryTicker(c <-chan time.Time) {
+	if s.shardDiscoveryTicker != nil {
+		s.shardDiscoveryTicker.Stop()
+	}
+	s.shardDiscoveryTicker = &time.Ticker{C: c}
+}
